@@ -159,6 +159,8 @@ impl Search {
             .info
             .best_move
             .or_else(|| self.original_board.get_legal_moves().first().copied());
+        // Once the answer is out the search no longer counts as running, so that the next go is accepted
+        self.stop();
         match best_move {
             Some(ply) => self.log(format!("bestmove {ply}").as_str()),
             None => self.log("bestmove 0000"),
